@@ -109,6 +109,18 @@ static inline int64_t i64_mod(int64_t a, int64_t b) {
     return a % b;
 }
 
+/* Array index operand: an int (enum / u8 are integers too); anything else reads as 0.
+ * The index must lie in [0, length): docs/ARRAY_SAFETY.md promises a run-time error for
+ * every out-of-range access, and a 64-bit index must not be truncated to 32 bits. */
+static inline int64_t arr_index_of(NanoValue v) {
+    switch (v.tag) {
+        case TAG_INT:  return v.as.i64;
+        case TAG_ENUM: return (int64_t)v.as.enum_val;
+        case TAG_U8:   return (int64_t)v.as.u8;
+        default:       return 0;
+    }
+}
+
 /* ========================================================================
  * Stack Operations
  * ======================================================================== */
@@ -1151,6 +1163,10 @@ VmTrap vm_core_execute(VmState *vm) {
                 vm_release(&vm->heap, arr);
                 return trap_error(vm, VM_ERR_TYPE_ERROR, "ARR_POP: not an array");
             }
+            if (arr.as.array->length == 0) {
+                vm_release(&vm->heap, arr);
+                return trap_error(vm, VM_ERR_OUT_OF_BOUNDS, "ARR_POP: pop from an empty array");
+            }
             NanoValue v = vm_array_pop(arr.as.array);
             stack_push(vm, v);
             stack_push(vm, arr);
@@ -1164,7 +1180,14 @@ VmTrap vm_core_execute(VmState *vm) {
                 vm_release(&vm->heap, arr);
                 return trap_error(vm, VM_ERR_TYPE_ERROR, "ARR_GET: not an array");
             }
-            uint32_t idx = (uint32_t)(idx_v.tag == TAG_INT ? idx_v.as.i64 : 0);
+            int64_t idx64 = arr_index_of(idx_v);
+            if (idx64 < 0 || idx64 >= (int64_t)arr.as.array->length) {
+                uint32_t alen = arr.as.array->length;
+                vm_release(&vm->heap, arr);
+                return trap_error(vm, VM_ERR_OUT_OF_BOUNDS, "Array index %lld out of bounds (length %u)",
+                                  (long long)idx64, alen);
+            }
+            uint32_t idx = (uint32_t)idx64;
             NanoValue v = vm_array_get(arr.as.array, idx);
             vm_retain(v);
             vm_release(&vm->heap, arr);
@@ -1181,7 +1204,15 @@ VmTrap vm_core_execute(VmState *vm) {
                 vm_release(&vm->heap, v);
                 return trap_error(vm, VM_ERR_TYPE_ERROR, "ARR_SET: not an array");
             }
-            uint32_t idx = (uint32_t)(idx_v.tag == TAG_INT ? idx_v.as.i64 : 0);
+            int64_t idx64 = arr_index_of(idx_v);
+            if (idx64 < 0 || idx64 >= (int64_t)arr.as.array->length) {
+                uint32_t alen = arr.as.array->length;
+                vm_release(&vm->heap, arr);
+                vm_release(&vm->heap, v);
+                return trap_error(vm, VM_ERR_OUT_OF_BOUNDS, "Array index %lld out of bounds (length %u)",
+                                  (long long)idx64, alen);
+            }
+            uint32_t idx = (uint32_t)idx64;
             vm_release(&vm->heap, vm_array_get(arr.as.array, idx));
             vm_array_set(arr.as.array, idx, v);
             stack_push(vm, arr);
@@ -1223,7 +1254,14 @@ VmTrap vm_core_execute(VmState *vm) {
                 vm_release(&vm->heap, arr);
                 return trap_error(vm, VM_ERR_TYPE_ERROR, "ARR_REMOVE: not an array");
             }
-            uint32_t idx = (uint32_t)(idx_v.tag == TAG_INT ? idx_v.as.i64 : 0);
+            int64_t idx64 = arr_index_of(idx_v);
+            if (idx64 < 0 || idx64 >= (int64_t)arr.as.array->length) {
+                uint32_t alen = arr.as.array->length;
+                vm_release(&vm->heap, arr);
+                return trap_error(vm, VM_ERR_OUT_OF_BOUNDS, "Array index %lld out of bounds (length %u)",
+                                  (long long)idx64, alen);
+            }
+            uint32_t idx = (uint32_t)idx64;
             vm_array_remove(arr.as.array, idx);
             stack_push(vm, arr);
             break;
